@@ -1,4 +1,5 @@
 import MtailVerif.Proofs.Reload
+import MtailVerif.Proofs.Skeletons
 /-! # C20 — lines reach each program in order, exactly once, across reloads
 
     Partial by nature: the theorems quantify over every schedule of the transition system of
@@ -70,5 +71,13 @@ theorem source_shape :
 /-- non-vacuity: a schedule with a reload in the middle of a line reaches a quiescent state -/
 example : (run true {} [.beginSwap, .endSwap, .take 1, .hand, .beginSwap, .take 2, .finish 1, .endSwap, .hand,
     .finish 2]).map (fun s => (s.applied, s.started)) = some ([1, 2], [(1, 1), (2, 2)]) := by decide
+
+/-! ### regenerated control skeletons (written by lib/wire_skeletons.py) -/
+/-- Obligations over regenerated facts: the functions this property's model stands for have the
+    control skeleton the model was written against (`Proofs/Skeletons.lean`, one `rfl` per function
+    or clause; DESIGN.md §11.6a) -/
+theorem loader_skeletons : Skeletons.LoaderShape := Skeletons.loader_shape
+theorem line_skeletons : Skeletons.LineShape := Skeletons.line_shape
+theorem dispatch_skeletons : Skeletons.DispatchShape := Skeletons.dispatch_shape
 
 end MtailVerif.C20
